@@ -39,6 +39,9 @@ def c01(res: CheckResult) -> None:
     ic = C.load_icontract()
     rng = random.Random(res.seed)
     res.assumptions = COMMON_ASSUMPTIONS
+    call_unit(res, "stacks with a condition that cannot be evaluated unless the earlier ones hold (it raises); bodies "
+                   "returning NotImplemented / False / Ellipsis / 0 / ''", list(F.fam_guarded(res.tier, rng)), ic,
+              require_outcomes=["ret", "Violation", "Exception"])
     call_unit(res, "pre-gate (9 kinds x 9 shapes x truth x around x sync/async x error forms)",
               list(F.fam_pre(res.tier, rng)), ic, require_outcomes=["ret", "Violation"])
     random_unit(res, "random programs beyond the exhaustive bounds", list(F.fam_random(res.tier, rng, "pre")), ic)
@@ -104,6 +107,9 @@ def c02(res: CheckResult) -> None:
     ic = C.load_icontract()
     rng = random.Random(res.seed)
     res.assumptions = COMMON_ASSUMPTIONS
+    call_unit(res, "stacks with a condition that cannot be evaluated unless the earlier ones hold (it raises); bodies "
+                   "returning NotImplemented / False / Ellipsis / 0 / ''", list(F.fam_guarded(res.tier, rng)), ic,
+              require_outcomes=["ret", "Violation", "Exception"])
     call_unit(res, "post-gate (kinds x stacks of 0..3 x truth x body outcomes incl. BaseException x sync/async)",
               list(F.fam_post(res.tier, rng)), ic, require_outcomes=["ret", "Violation", "KI", "Exception"])
     random_unit(res, "random programs beyond the exhaustive bounds", list(F.fam_random(res.tier, rng, "post")), ic)
@@ -180,6 +186,9 @@ def c16(res: CheckResult) -> None:
     ic = C.load_icontract()
     rng = random.Random(res.seed)
     res.assumptions = COMMON_ASSUMPTIONS
+    call_unit(res, "stacks with a condition that cannot be evaluated unless the earlier ones hold (it raises); bodies "
+                   "returning NotImplemented / False / Ellipsis / 0 / ''", list(F.fam_guarded(res.tier, rng)), ic,
+              require_outcomes=["ret", "Violation", "Exception"])
     call_unit(res, "several falsy contracts (groups, stacks, levels) x all truth assignments",
               list(F.fam_order(res.tier, rng)), ic, require_outcomes=["Violation", "ErrInst", "ErrFact"])
     call_unit(res, "sequences of calls with different arguments on callables with several precondition groups",
